@@ -77,6 +77,7 @@ const (
 // reachable from the constructor (and Info for RigoApp).
 type provCtx struct {
 	w       *World
+	src     func(c *ssa.CallCommon) bool // what counts as a source (default: any persistent read)
 	funcs   []*ssa.Function
 	visitF  map[string]bool
 	memo    map[string]provenance
@@ -120,11 +121,25 @@ func (p *provCtx) valueProv(v ssa.Value, depth int, seen map[ssa.Value]bool) pro
 		return provZero
 	}
 	seen[v] = true
+	isSrc := p.src
+	if isSrc == nil {
+		isSrc = p.w.isPersistentSource
+	}
 	switch x := v.(type) {
-	case *ssa.Const, *ssa.Parameter, *ssa.Global, *ssa.Function, *ssa.Builtin, *ssa.FreeVar:
+	case *ssa.Parameter:
+		// the parameter of a callback handed to a source (ledger iteration) carries what the source reads
+		if fn := x.Parent(); fn != nil && fn.Parent() != nil {
+			for _, c := range closureCallSites(fn) {
+				if isSrc(c.Common()) {
+					return provPersist
+				}
+			}
+		}
+		return provZero
+	case *ssa.Const, *ssa.Global, *ssa.Function, *ssa.Builtin, *ssa.FreeVar:
 		return provZero
 	case *ssa.Call:
-		if p.w.isPersistentSource(x.Common()) {
+		if isSrc(x.Common()) {
 			return provPersist
 		}
 		// result depends on receiver/arguments
@@ -144,6 +159,29 @@ func (p *provCtx) valueProv(v ssa.Value, depth int, seen map[ssa.Value]bool) pro
 				if ret, ok := lastInstr(b).(*ssa.Return); ok && b != f.Recover {
 					for i := range ret.Results {
 						if p.valueProv(retResult(ret, i), depth+2, seen) == provPersist {
+							return provPersist
+						}
+					}
+				}
+			}
+		}
+		return provZero
+	case *ssa.Alloc:
+		// a local aggregate (e.g. the backing array of variadic arguments): what is stored into it
+		if x.Referrers() != nil {
+			for _, ref := range *x.Referrers() {
+				switch a := ref.(type) {
+				case *ssa.Store:
+					if a.Addr == x && p.valueProv(a.Val, depth+1, seen) == provPersist {
+						return provPersist
+					}
+				case *ssa.IndexAddr, *ssa.FieldAddr:
+					av := a.(ssa.Value)
+					if av.Referrers() == nil {
+						continue
+					}
+					for _, r2 := range *av.Referrers() {
+						if st, ok := r2.(*ssa.Store); ok && st.Addr == av && p.valueProv(st.Val, depth+1, seen) == provPersist {
 							return provPersist
 						}
 					}
@@ -181,6 +219,59 @@ func (p *provCtx) valueProv(v ssa.Value, depth int, seen map[ssa.Value]bool) pro
 		}
 	}
 	return provZero
+}
+
+// closureCallSites: the calls (in the enclosing function) that receive the
+// anonymous function fn as an argument.
+func closureCallSites(fn *ssa.Function) []ssa.CallInstruction {
+	var out []ssa.CallInstruction
+	par := fn.Parent()
+	if par == nil {
+		return nil
+	}
+	for _, b := range par.Blocks {
+		for _, in := range b.Instrs {
+			c, ok := in.(ssa.CallInstruction)
+			if !ok {
+				continue
+			}
+			for _, a := range c.Common().Args {
+				a = stripConv(a)
+				if mc, isMC := a.(*ssa.MakeClosure); isMC {
+					a = mc.Fn
+				}
+				if a == ssa.Value(fn) {
+					out = append(out, c)
+				}
+			}
+		}
+	}
+	return out
+}
+
+// isLiveLedgerRead: a read of a ledger's CURRENT view (the state of the last
+// committed block plus pending writes), as opposed to a view opened at a height
+// with ImmutableLedgerAt or a dedicated meta record.
+func (w *World) isLiveLedgerRead(c *ssa.CallCommon) bool {
+	rn := recvNamed(c)
+	if rn == nil || !(isLedgerType(rn) || isLedgerType(types.NewPointer(rn))) {
+		return false
+	}
+	switch callName(c) {
+	case "Get", "GetFinality", "Read", "IterateReadAllItems", "IterateReadAllFinalityItems":
+	default:
+		return false
+	}
+	var recv ssa.Value
+	if c.IsInvoke() {
+		recv = c.Value
+	} else if len(c.Args) > 0 {
+		recv = c.Args[0]
+	}
+	if recv != nil && strings.Contains(w.Canon(recv), "ImmutableLedgerAt(") {
+		return false
+	}
+	return true
 }
 
 // consensusWrittenFields: controller-state fields written by functions that run in consensus context.
@@ -301,6 +392,7 @@ func checkC07(w *World, r *Report) {
 	if r.importObs(w, func(t *Report) { d6(w, t, x, fns); d6b(w, t) }, "D-6", "R-3") == 0 {
 		r.Undecided("R-3", "write-back", "write-back analysis produced no obligation")
 	}
+	startupLag(w, r, "R-1")
 	r.Floor("R-3", 8, "write-back sites")
 	r.Floor("R-1", 12, "controller fields written during block execution")
 	r.Floor("R-2", 8, "persist/load pairs and codecs")
@@ -526,34 +618,10 @@ func r2(w *World, r *Report) {
 		}
 		r.Check(ok, "R-2", "NewGovCtrler:params", "the constructor loads the governance parameters committed in the params ledger", "the governance controller does not start from the committed parameters", fnSite(w, ng))
 	}
-	ap := w.anonOf("ctrlers/gov", "GovCtrler", "applyProposals", 1)
-	if ap == nil {
+	if af := w.applyFlow(); af.fn == nil {
 		r.Undecided("R-2", "applyProposals", "applyProposals callback not found")
 	} else {
-		var set ssa.CallInstruction
-		for _, c := range CallsIn(ap) {
-			if strings.HasPrefix(w.canonCall(c.Common(), 0), "recv.paramsLedger.SetFinality(") {
-				set = c
-			}
-		}
-		ok := false
-		if set != nil {
-			arg := set.Common().Args[len(set.Common().Args)-1]
-			for _, fs := range w.fieldStores(ap) {
-				if fs.Field.Name() == "newGovParams" && sameValue(fs.Val, arg) && instrDominates(set, fs.In) {
-					ok = true
-				}
-			}
-			// merged with the current parameters first
-			mg := false
-			for _, c := range CallsIn(ap) {
-				if callName(c.Common()) == "MergeGovParams" && len(c.Common().Args) == 2 && sameValue(c.Common().Args[1], arg) && instrDominates(c, set) {
-					mg = true
-				}
-			}
-			ok = ok && mg
-		}
-		r.Check(ok, "R-2", "applyProposals:params-persisted", "the parameters that become active at Commit are the (merged) ones recorded in the params ledger", "the parameters activated at Commit are not the ones recorded in the params ledger (restart would load others)", fnSite(w, ap))
+		r.Check(af.persistOK, "R-2", "applyProposals:params-persisted", "the parameters that become active at Commit are the (merged) ones recorded in the params ledger", "the parameters activated at Commit are not the ones recorded in the params ledger (restart would load others): "+af.persWhy, fnSite(w, af.fn))
 	}
 	gc := needFn(r, "R-2", w, fref{"ctrlers/gov", "GovCtrler", "Commit"})
 	if gc != nil {
@@ -696,7 +764,7 @@ func pickSite(depth int, outer ssa.CallInstruction, inner ssa.Instruction) ssa.I
 }
 
 func checkC08(w *World, r *Report) {
-	r.Explanation = "Structural clause of C08: (K-1) the durable writes reachable from RigoApp.Commit are enumerated in execution order; the record that Info reads back (PutLastBlockContext) is written after all four controllers' commits and after the version-equality test, and nothing but the legacy height record follows it — so a crash before it leaves Info reporting the previous block; (K-2) divergence is detected: the version-equality tests in the application, governance and stake commits panic / fail before the meta record is written, RigoApp.BeginBlock and EVMCtrler.BeginBlock test height continuity before any effect, and Info reports what the meta store holds; (K-3) some function on the start-up path must bring every store back to the persisted height (version rollback / overwrite, or a comparison of store versions with the meta height) — absent on this tree, recorded as one known finding per gap between consecutive durable writes of a commit; (K-4) what Commit writes is what a restarted node reads: the last-block record is written and read as one type whose MarshalJSON/UnmarshalJSON use identical wire structs and map every wire field from/to the same record field, every encoding/json decode target in the state packages is decodable by encoding/json (no non-empty interface / chan / func component outside a type with its own unmarshaller), and Info reports the record's height and app hash."
+	r.Explanation = "Structural clause of C08: (K-1) the durable writes reachable from RigoApp.Commit are enumerated in execution order; the record that Info reads back (PutLastBlockContext) is written after all four controllers' commits and after the version-equality test, and nothing but the legacy height record follows it — so a crash before it leaves Info reporting the previous block; (K-2) divergence is detected: the version-equality tests in the application, governance and stake commits panic / fail before the meta record is written, RigoApp.BeginBlock and EVMCtrler.BeginBlock test height continuity before any effect, and Info reports what the meta store holds; (K-3) some function on the start-up path must bring every store back to the persisted height (version rollback / overwrite, or a comparison of store versions with the meta height) — absent on this tree, recorded as one known finding per gap between consecutive durable writes of a commit; (K-4) what Commit writes is what a restarted node reads: the last-block record is written and read as one type whose MarshalJSON/UnmarshalJSON use identical wire structs and map every wire field from/to the same record field, every encoding/json decode target in the state packages is decodable by encoding/json (no non-empty interface / chan / func component outside a type with its own unmarshaller), and Info reports the record's height and app hash; (K-5) the crash point just after a commit is a restart at a block boundary: every controller field written during block execution is block-scoped, rebuilt from durable state at start-up or handed over, and every record start-up reads is written by every commit with the value kept in memory (C07 R-1, R-2)."
 	r.NotCovered = "that a replay after realignment reproduces the hashes; torn writes inside one store (LevelDB / iavl); unchecked write errors of the meta store (errcheck cross-reference)."
 	cm := needFn(r, "K-1", w, fref{"node", "RigoApp", "Commit"})
 	if cm == nil {
@@ -902,6 +970,41 @@ func checkC08(w *World, r *Report) {
 	r.Floor("K-3", 10, "gaps between durable writes")
 	k4(w, r)
 	r.Floor("K-4", 10, "record round trip")
+	// K-5: a crash right after a completed commit is a restart at a block boundary:
+	// whatever block execution keeps in memory must be rebuilt from what the commit
+	// made durable, and each record a restart reads must be written by every commit
+	// (C07 R-1, R-2)
+	x := NewExecCtx(w)
+	if r.importRules(w, func(t *Report) { r1(w, t, x); r2(w, t); startupLag(w, t, "R-1") }, "K-5", "R-1", "R-2") < 20 {
+		r.Undecided("K-5", "restart", "the restart rules (C07 R-1, R-2) matched fewer than 20 constructs")
+	}
+}
+
+// startupLag: after block N consensus holds the selection made from the state
+// committed by block N-1. Whatever start-up assigns to lastValidators must
+// therefore not be computed from the ledger's live view, which is the state of
+// block N: the first diff would be computed against a set never announced.
+func startupLag(w *World, r *Report, rule string) {
+	// U-4 (lag): after block N consensus holds the selection made from the state
+	// committed by block N-1. Whatever start-up assigns to lastValidators must
+	// therefore not be computed from the ledger's live view, which is the state
+	// of block N: the first diff would be computed against a set never announced.
+	if ctor := w.Func(pkgStake, "NewStakeCtrler"); ctor == nil {
+		r.Undecided(rule, "startup-selection-lag", "NewStakeCtrler not found")
+	} else {
+		reach := w.ReachFrom([]*ssa.Function{ctor}, nil)
+		p := &provCtx{w: w, funcs: reach.ModuleFuncs(), visitF: map[string]bool{}, memo: map[string]provenance{}, witness: map[string]string{}, src: w.isLiveLedgerRead}
+		nf := 0
+		for _, f := range p.funcs {
+			for _, fs := range w.fieldStores(f) {
+				if fs.Owner != nil && fs.Owner.Obj().Name() == "StakeCtrler" && fs.Field.Name() == "lastValidators" {
+					nf++
+				}
+			}
+		}
+		live := p.fieldProv("StakeCtrler", "lastValidators", 0) == provPersist
+		r.Check(!live, rule, "startup-selection-lag", fmt.Sprintf("on the start-up path (%d functions, %d stores to lastValidators) the set the first diff is computed against is not derived from the live view of a ledger", len(p.funcs), nf), "at start-up lastValidators is computed from the live view of the delegatee ledger, i.e. from the state of the LAST block, but consensus was last told the selection of the block before: the changes of the last block before a restart are never announced", fnSite(w, ctor))
+	}
 }
 
 // ---------------------------------------------------------------- C10
@@ -928,6 +1031,7 @@ func checkC10(w *World, r *Report) {
 	if n < 2 {
 		r.Undecided("U-4", "fields", "lastValidators / allDelegatees not found among the fields written during block execution")
 	}
+	startupLag(w, r, "U-4")
 	r.Floor("U-1", 5, "selection")
 	r.Floor("U-2", 9, "merge-diff decision table")
 	r.Floor("U-3", 3, "hand-over to consensus")
